@@ -76,17 +76,17 @@ type Closure struct {
 }
 
 type Val struct {
-	T    types.Type
-	Term string
-	Addr *Addr
-	View *View
-	Map  *MapV
-	Tup  []Val
-	Fn   interface{} // *ssa.Function | *ssa.Builtin
-	Clo  *Closure
-	Bad  string // unsupported marker
-	K    *big.Int // untyped integer constant (contract expressions)
-	lval *Addr    // location the value was read from (contract expressions)
+	T       types.Type
+	Term    string
+	Addr    *Addr
+	View    *View
+	Map     *MapV
+	Tup     []Val
+	Fn      interface{} // *ssa.Function | *ssa.Builtin
+	Clo     *Closure
+	Bad     string     // unsupported marker
+	K       *big.Int   // untyped integer constant (contract expressions)
+	lval    *Addr      // location the value was read from (contract expressions)
 	seqElem types.Type // spec-level sequence value (Term is a Seq)
 	seqES   string
 	mapT    *types.Map // spec-level map value (Term is a Map)
